@@ -102,14 +102,13 @@ func sortedKeys(m map[string]string) []string {
 	return ks
 }
 
+// generators register themselves in an init() of their own file: generators = append(generators, genX)
+var generators []func()
+
 func main() {
 	flag.Parse()
 	os.MkdirAll(*out, 0755)
-	genHelpers()
-	genWeights()
-	genOpcodes()
-	genWalk()
-	genGrammar()
-	genVM()
-	genPipeline()
+	for _, g := range generators {
+		g()
+	}
 }
